@@ -65,7 +65,7 @@ type propCfg struct {
 }
 
 var (
-	substSync = map[string]string{"sync": "verif/sim/sync", "sync/atomic": "verif/sim/atomic", "math/rand": "verif/sim/rand"}
+	substSync = map[string]string{"sync": "verif/sim/sync", "sync/atomic": "verif/sim/atomic", "math/rand": "verif/sim/rand", "time": "verif/sim/time"}
 )
 
 var (
@@ -82,7 +82,7 @@ func cacheSpecs() []rewrite.PkgSpec {
 }
 
 func proxySpecs() []rewrite.PkgSpec {
-	net := map[string]string{"os": "verif/sim/os", "net": "verif/sim/net", "net/http": "verif/sim/net", "sync": "verif/sim/sync", "sync/atomic": "verif/sim/atomic"}
+	net := map[string]string{"os": "verif/sim/os", "net": "verif/sim/net", "net/http": "verif/sim/net", "sync": "verif/sim/sync", "sync/atomic": "verif/sim/atomic", "time": "verif/sim/time"}
 	return []rewrite.PkgSpec{
 		{Dir: repo("goproxytest"), Subst: net, GoStmts: true},
 		{Dir: repo("par"), Subst: substSync, GoStmts: true},
@@ -90,7 +90,7 @@ func proxySpecs() []rewrite.PkgSpec {
 }
 
 func tsSpecs() []rewrite.PkgSpec {
-	ts := map[string]string{"os": "verif/sim/os", "os/exec": "verif/sim/exec", "sync": "verif/sim/sync", "sync/atomic": "verif/sim/atomic"}
+	ts := map[string]string{"os": "verif/sim/os", "os/exec": "verif/sim/exec", "sync": "verif/sim/sync", "sync/atomic": "verif/sim/atomic", "time": "verif/sim/time"}
 	return []rewrite.PkgSpec{
 		{Dir: repo("testscript"), Subst: ts, GoStmts: true},
 		{Dir: repo("testscript/internal/pty"), Subst: ts},
